@@ -24,6 +24,17 @@ example : Gen.FactsC17.scoreCmp = "cmp.Compare(b.HybridScore, a.HybridScore)" :=
 /-- 1.42 and 10.0 as float32 bit patterns (used by the driver's heuristic) -/
 example : (Gen.FactsC17.poissonABits, Gen.FactsC17.poissonBBits) = (0x3fb5c28f, 0x41200000) := by decide
 
+/-- the retry loop `route` / `routeIter` are written against (cluster/rpc.go internalRoute): the loop
+header; `retryErr = nil` at the top of every iteration; a failed `rpcClient` records an error and goes
+round; `rpc.ErrShutdown` evicts the cached client and goes round WITHOUT consuming an attempt (`i--`);
+any other call error returns it; an answer returns nil; a time-out records an error; the loop's exit
+returns the recorded error -/
+example : Gen.FactsC17.routeSkeleton =
+    ["for i := 0; i < c.cfg.RpcRetries; i++ {", "retryErr = nil", "c.rpcClient", "if err != nil {", "retryErr = err", "continue", "}",
+     "client.Go", "case <-rpcCall.Done {", "if rpcCall.Error != nil {", "if rpcCall.Error == rpc.ErrShutdown {",
+     "delete(c.rpcClients, destination)", "i--", "continue", "}", "return err", "}", "return nil", "}",
+     "case <-timeout.C {", "retryErr = err", "}", "}", "return retryErr"] := by decide
+
 /-! ### curateFailedPoints -/
 
 /-- the sort + binary-search implementation computes the list difference `allIds \ successIds`
@@ -263,5 +274,142 @@ def exAns : List (Option (List Hit)) :=
 example : searchPoints (sortBy leScore) (fun l n => l / n + 10) 75 exAns 3 0 =
     some [⟨1, 9, []⟩, ⟨4, 8, []⟩, ⟨3, 7, []⟩] := by decide
 example : ((exAns.flatMap fun a => a.getD []).map Hit.id).Nodup ∧ ∀ a ∈ exAns, (a.getD []).Pairwise (fun x y => leScore x y = true) := by decide
+
+/-! ### internalRoute: success means "delivered and answered" -/
+
+/-- **nil only if answered.**  For every number of retries ≥ 1, every initial state of the client
+cache and every behaviour of the peer / network (event list): if `internalRoute` returns nil then
+exactly one request was delivered to the server and answered by its handler without error; if it
+returns an error (or is still looping) no request was answered without error.  At most `retries`
+requests are ever written. -/
+theorem C17_route_nil {retries : Nat} (hr : 1 ≤ retries) (cache : Cache) (evs : List Ev) :
+    ((routeFrom retries cache evs).res = .ret none ↔ (routeFrom retries cache evs).st.answeredOk = 1) ∧
+    (routeFrom retries cache evs).st.answeredOk ≤ 1 ∧
+    (routeFrom retries cache evs).st.written ≤ retries := by
+  have h := route_spec retries evs { cache := cache } (fun hge => by simp at hge; omega)
+  simp only [routeFrom] at *
+  obtain ⟨h1, h2, h3⟩ := h
+  refine ⟨⟨fun e => by simpa using h1 e, fun e => ?_⟩, ?_, ?_⟩
+  · by_cases hn : (route retries evs { cache := cache }).res = .ret none
+    · exact hn
+    · have := h2 hn; omega
+  · by_cases hn : (route retries evs { cache := cache }).res = .ret none
+    · have := h1 hn; omega
+    · have := h2 hn; omega
+  · simp [RouteSt.written] at h3 ⊢; omega
+
+/-- the fan-out counts a shard as having answered (`routedUp`) only if its server did answer -/
+theorem C17_routed_up {retries : Nat} (hr : 1 ≤ retries) (cache : Cache) (evs : List Ev) :
+    routedUp retries cache evs = true ↔ (routeFrom retries cache evs).st.answeredOk = 1 := by
+  rw [← (C17_route_nil hr cache evs).1]; simp [routedUp]
+
+/-- a server that cannot be reached (no live cached client, every dial fails) is never reported as
+having answered, however often the loop goes round -/
+theorem C17_route_unreachable {retries : Nat} (hr : 1 ≤ retries) {cache : Cache} (hc : cache ≠ .live) (evs : List Ev)
+    (hd : ∀ ev ∈ evs, ev.dial = false) : (routeFrom retries cache evs).res ≠ .ret none := by
+  have key : ∀ (evs : List Ev) (st : RouteSt), (∀ ev ∈ evs, ev.dial = false) → st.cache ≠ .live → RouteInv retries st →
+      (route retries evs st).res ≠ .ret none := by
+    intro evs
+    induction evs with
+    | nil =>
+      intro st _ _ hinv
+      unfold route
+      by_cases h : st.i ≥ retries
+      · simp only [h, if_true]; intro e; exact hinv h (by simpa using e)
+      · simp [h]
+    | cons ev rest ih =>
+      intro st hd hc hinv
+      unfold route
+      by_cases h : st.i ≥ retries
+      · simp only [h, if_true]; intro e; exact hinv h (by simpa using e)
+      · simp only [h, if_false]
+        have hev := hd ev (by simp)
+        have hrest : ∀ e ∈ rest, e.dial = false := fun e he => hd e (by simp [he])
+        cases hcache : st.cache with
+        | live => exact absurd hcache hc
+        | none =>
+          have : routeIter ev st = .cont { st with i := st.i + 1, retryErr := some .dial } := by
+            simp [routeIter, hcache, hev]
+          rw [this]
+          exact ih _ hrest (by simp [hcache]) (fun _ => by simp)
+        | dead =>
+          have : routeIter ev st = .cont { st with retryErr := none, cache := .none, dials := st.dials } := by
+            simp [routeIter, hcache]
+          rw [this]
+          exact ih _ hrest (by simp) (fun hge => absurd hge h)
+  exact key evs _ hd hc (fun hge => by simp at hge; omega)
+
+/-- `rpcRetries: 0` is outside the theorem for a reason: the loop body never runs and the function
+reports success without having contacted anybody -/
+theorem C17_route_zero_retries (cache : Cache) (evs : List Ev) :
+    (routeFrom 0 cache evs).res = .ret none ∧ (routeFrom 0 cache evs).st.written = 0 := by
+  cases evs <;> simp [routeFrom, route, RouteSt.written]
+
+/-- **"not found" only if every shard's server answered**: in a fan-out whose availability flags are
+the outcomes of the routed calls (any retries ≥ 1, any cache states, any peer behaviour per shard) -/
+theorem C17_failed_message_routed {retries : Nat} (hr : 1 ≤ retries) (shards : List (List (Nat × Int) × Cache × List Ev))
+    (req : List (Nat × Int)) (e : Nat × Msg)
+    (he : e ∈ (updatePoints (shards.map fun s => ⟨s.1, routedUp retries s.2.1 s.2.2⟩) req).failed) :
+    e.2 = Msg.notFound ↔ ∀ s ∈ shards, (routeFrom retries s.2.1 s.2.2).st.answeredOk = 1 := by
+  rw [C17_failed_message _ req e he]
+  constructor
+  · intro h s hs
+    have := h ⟨s.1, routedUp retries s.2.1 s.2.2⟩ (List.mem_map.mpr ⟨s, hs, rfl⟩)
+    exact (C17_routed_up hr _ _).mp this
+  · intro h sh hsh
+    obtain ⟨s, hs, rfl⟩ := List.mem_map.mp hsh
+    exact (C17_routed_up hr _ _).mpr (h s hs)
+
+/-- the delete form of `C17_failed_message` -/
+theorem C17_failed_message_delete (col : Coll) (ids : List Nat) (e : Nat × Msg) (he : e ∈ (deletePoints col ids).failed) :
+    (e.2 = Msg.notFound ↔ ∀ sh ∈ col, sh.up = true) := by
+  rw [C17_failed_delete] at he
+  obtain ⟨i, _, rfl⟩ := List.mem_map.mp he
+  by_cases h : col.all (·.up) = true
+  · simp only [h, if_true, true_iff]; simpa using h
+  · simp only [h, Bool.false_eq_true, if_false]
+    constructor
+    · intro e; cases e
+    · intro hall; exact absurd (by simpa using hall) h
+
+/-- … and for delete -/
+theorem C17_failed_message_routed_delete {retries : Nat} (hr : 1 ≤ retries) (shards : List (List (Nat × Int) × Cache × List Ev))
+    (ids : List Nat) (e : Nat × Msg)
+    (he : e ∈ (deletePoints (shards.map fun s => ⟨s.1, routedUp retries s.2.1 s.2.2⟩) ids).failed) :
+    e.2 = Msg.notFound ↔ ∀ s ∈ shards, (routeFrom retries s.2.1 s.2.2).st.answeredOk = 1 := by
+  rw [C17_failed_message_delete _ ids e he]
+  constructor
+  · intro h s hs
+    have := h ⟨s.1, routedUp retries s.2.1 s.2.2⟩ (List.mem_map.mpr ⟨s, hs, rfl⟩)
+    exact (C17_routed_up hr _ _).mp this
+  · intro h sh hsh
+    obtain ⟨s, hs, rfl⟩ := List.mem_map.mp hsh
+    exact (C17_routed_up hr _ _).mpr (h s hs)
+
+/-- a search whose per-shard calls are routed returns results only if every shard's server was
+reached and answered -/
+theorem C17_search_routed {α} {retries : Nat} (hr : 1 ≤ retries) (sort : List α → List α) (heur : Nat → Nat → Nat) (maxLimit : Nat)
+    (shards : List (List α × Cache × List Ev)) (limit offset : Nat) (r : List α)
+    (h : searchPoints sort heur maxLimit (shards.map fun s => if routedUp retries s.2.1 s.2.2 then some s.1 else none) limit offset = some r) :
+    ∀ s ∈ shards, (routeFrom retries s.2.1 s.2.2).st.answeredOk = 1 := by
+  intro s hs
+  rw [← C17_routed_up hr]
+  cases hup : routedUp retries s.2.1 s.2.2
+  · exfalso
+    have hn : (none : Option (List α)) ∈ shards.map fun s => if routedUp retries s.2.1 s.2.2 then some s.1 else none :=
+      List.mem_map.mpr ⟨s, hs, by simp [hup]⟩
+    rw [C17_search_unavailable sort heur maxLimit _ limit offset hn] at h
+    cases h
+  · rfl
+
+-- non-vacuity: the server hangs on the first attempt, its connection dies during the back-off, the
+-- re-dial succeeds (retries = 2): one request lost, one answered
+example : routeFrom 2 .live [⟨false, false, .timeout⟩, ⟨true, false, .ok⟩, ⟨false, true, .ok⟩] =
+    ⟨.ret none, { i := 1, retryErr := none, cache := .live, dials := 1, answeredOk := 1, answeredErr := 0, lost := 1 }⟩ := by decide
+-- … and the server stays away: the error of the failed dial is returned
+example : (routeFrom 2 .live [⟨false, false, .timeout⟩, ⟨true, false, .ok⟩, ⟨false, false, .ok⟩]).res = .ret (some .dial) := by decide
+-- a stale cached client with a single attempt configured: evicted without counting, then the real attempt
+example : (routeFrom 1 .live [⟨true, false, .ok⟩, ⟨false, true, .ok⟩]).res = .ret none ∧
+    (routeFrom 1 .live [⟨true, false, .ok⟩, ⟨false, false, .ok⟩]).res = .ret (some .dial) := by decide
 
 end Sema.C17
